@@ -1,6 +1,8 @@
 import TemplVerif.Model.Quote
 import TemplVerif.Proofs.Quote
 import TemplVerif.Generated.HasChanged
+import TemplVerif.Generated.Watch
+import TemplVerif.Model.Watch
 /-
 C16 — watch-mode rendering equals a fresh build.
 -/
@@ -62,5 +64,106 @@ theorem C16_haschanged_pinned :
 
 /-- Non-vacuity: a literal with a quote, a backslash, a newline, a non-ASCII character and an invalid byte. -/
 example : unquote (quote (fun r => 32 ≤ r && r != 127 && r != 0xFFFD) [34, 92, 10, 195, 169, 255, 97]) = some [34, 92, 10, 195, 169, 255, 97] := by decide
+
+/-! ## The text file is current after every edit; the running program notices every rewrite -/
+
+open TemplVerif.Watch in
+/-- After ANY sequence of edits handled by one handler, the development text file is the one written for the last
+    version - provided the digest that guards the write is taken of a value that determines the file (`hk`). -/
+theorem C16_textfile_current (key : List Bytes → Bytes) (hk : ∀ a b, key a = key b → textFile a = textFile b)
+    (g : Guard) (hg : ∀ l, g.last = some (key l) → g.disk = some (textFile l))
+    (edits : List (List Bytes)) (final : List Bytes) :
+    (Guard.run key g (edits ++ [final])).disk = some (textFile final) := by
+  induction edits generalizing g with
+  | nil =>
+    simp only [List.nil_append, Guard.run, Guard.step]
+    split
+    · rename_i h; exact hg final (by simpa using h)
+    · rfl
+  | cons e es ih =>
+    simp only [List.cons_append, Guard.run]
+    apply ih
+    intro l hl
+    simp only [Guard.step] at hl ⊢
+    split at hl
+    · rename_i h; simp only [h, ↓reduceIte]; exact hg l hl
+    · rename_i h
+      simp only [h]
+      simp only [Bool.false_eq_true, ↓reduceIte] at hl ⊢
+      have : key e = key l := by simpa using hl
+      rw [hk e l this]
+
+open TemplVerif.Watch in
+/-- The digest in the code is of the joined text, which IS the file: the hypothesis of `C16_textfile_current` holds. -/
+theorem C16_textfile_current_joined (edits : List (List Bytes)) (final : List Bytes) :
+    (Guard.run keyJoined {} (edits ++ [final])).disk = some (textFile final) :=
+  C16_textfile_current keyJoined (fun _ _ h => h) {} (by intro l h; simp at h) edits final
+
+open TemplVerif.Watch in
+/-- Why the digest must be of the joined text: fed literal by literal without a separator, moving an expression
+    through static text (`a`,`b` -> `ab`,``) leaves the digest unchanged and the stale file on disk. -/
+theorem C16_textfile_concat_counterexample :
+    (Guard.run keyConcat {} [[[97], [98]], [[97, 98], []]]).disk = some (textFile [[97], [98]]) ∧
+    textFile [[97], [98]] ≠ textFile [[97, 98], []] := by decide
+
+open TemplVerif.Watch in
+/-- T1: in FSEventHandler.generate the guarding digest is taken of `[]byte(joined)`, the bytes written are
+    `[]byte(joined)`, and `joined` is the literals joined by line feeds. -/
+theorem C16_textguard_pinned :
+    Generated.textJoinedExpr = [115, 116, 114, 105, 110, 103, 115, 46, 74, 111, 105, 110, 40, 103, 101, 110, 101, 114, 97, 116, 111, 114, 79, 117, 116, 112, 117, 116, 46, 76, 105, 116, 101, 114, 97, 108, 115, 44, 32, 34, 92, 110, 34, 41] ∧
+    Generated.textHashOf = [115, 104, 97, 50, 53, 54, 46, 83, 117, 109, 50, 53, 54, 32, 111, 102, 32, 91, 93, 98, 121, 116, 101, 40, 106, 111, 105, 110, 101, 100, 41] ∧
+    Generated.textGuardArg = [116, 120, 116, 72, 97, 115, 104] ∧
+    Generated.textWriteArg = [91, 93, 98, 121, 116, 101, 40, 106, 111, 105, 110, 101, 100, 41] := by decide
+
+open TemplVerif.Watch in
+/-- The running program: while the cache is not ahead of the file (`Inv`), every look at the file `throttle` or more
+    after the file's last modification returns the file's current lines - and keeps the invariant. -/
+theorem C16_watch_fresh (throttle : Nat) (c : Cache) (f : File) (now : Nat) (hi : Inv c f) (hn : f.mtime + throttle ≤ now) :
+    (look loadMtime throttle c f now).lines = f.lines ∧ Inv (look loadMtime throttle c f now) f := by
+  obtain ⟨h1, h2⟩ := hi
+  unfold look
+  have hth : ¬ (now - c.time < throttle) := by omega
+  simp only [hth, ↓reduceIte]
+  by_cases hgt : f.mtime > c.time
+  · simp only [hgt, decide_true, Bool.not_true, Bool.false_eq_true, ↓reduceIte, loadMtime]
+    exact ⟨trivial, Nat.le_refl _, fun _ => rfl⟩
+  · have heq : c.time = f.mtime := by omega
+    simp only [hgt, decide_false, Bool.not_false, ↓reduceIte]
+    exact ⟨h2 heq, h1, h2⟩
+
+open TemplVerif.Watch in
+/-- `Inv` holds after a load, survives every look (early ones included), and survives every rewrite of the file that
+    gets a later modification time (the file system's clock is the assumption here). -/
+theorem C16_watch_inv (throttle : Nat) (c : Cache) (f : File) (now : Nat) (hi : Inv c f) :
+    Inv (loadMtime f now) f ∧ Inv (look loadMtime throttle c f now) f ∧ (∀ f' : File, f.mtime < f'.mtime → Inv c f') := by
+  obtain ⟨h1, h2⟩ := hi
+  refine ⟨⟨Nat.le_refl _, fun _ => rfl⟩, ?_, ?_⟩
+  · unfold look
+    split
+    · exact ⟨h1, h2⟩
+    · split
+      · exact ⟨h1, h2⟩
+      · exact ⟨Nat.le_refl _, fun _ => rfl⟩
+  · intro f' hlt
+    exact ⟨by omega, fun h => by omega⟩
+
+open TemplVerif.Watch in
+/-- Why the remembered time must be the FILE's: remembering the time of loading (10) and a rewrite stamped by a
+    coarser clock (9, later content) is never noticed, however late one looks. -/
+theorem C16_watch_loadtime_counterexample :
+    ∀ now ∈ [200, 5000, 1000000],
+      (look loadNow 100 (loadNow { mtime := 5, lines := [[97]] } 10) { mtime := 9, lines := [[98]] } now).lines = [[97]] := by decide
+
+/-- T1: cacheStrings remembers `info.ModTime()` of `txtFile.Stat()`; getWatchedStrings serves the cache while
+    `time.Since(state.modTime) < 100ms` and otherwise reloads unless `!info.ModTime().After(state.modTime)`. -/
+theorem C16_watch_pinned :
+    Generated.watchCacheModTimeExpr = [105, 110, 102, 111, 46, 77, 111, 100, 84, 105, 109, 101, 40, 41] ∧
+    Generated.watchCacheInfoSource = [116, 120, 116, 70, 105, 108, 101, 46, 83, 116, 97, 116, 40, 41] ∧
+    Generated.watchThrottleCond = [116, 105, 109, 101, 46, 83, 105, 110, 99, 101, 40, 115, 116, 97, 116, 101, 46, 109, 111, 100, 84, 105, 109, 101, 41, 32, 60, 32, 116, 105, 109, 101, 46, 77, 105, 108, 108, 105, 115, 101, 99, 111, 110, 100, 42, 49, 48, 48] ∧
+    Generated.watchStaleCond = [33, 105, 110, 102, 111, 46, 77, 111, 100, 84, 105, 109, 101, 40, 41, 46, 65, 102, 116, 101, 114, 40, 115, 116, 97, 116, 101, 46, 109, 111, 100, 84, 105, 109, 101, 41] := by decide
+
+/-- Non-vacuity: a load, an early look (throttled: old lines are still allowed), a rewrite, a late look. -/
+example : Watch.Inv (Watch.loadMtime { mtime := 5, lines := [[97]] } 6) { mtime := 5, lines := [[97]] } := ⟨Nat.le_refl _, fun _ => rfl⟩
+example : (Watch.look Watch.loadMtime 100 (Watch.loadMtime { mtime := 5, lines := [[97]] } 6) { mtime := 50, lines := [[98]] } 150).lines = [[98]] := by decide
 
 end TemplVerif.Props.C16
